@@ -9,6 +9,7 @@ the node reached without them (branch independence / order independence).
 from __future__ import annotations
 
 import inspect
+import copy
 import itertools
 
 from mc.common import Result, h64
@@ -136,6 +137,11 @@ QB_OPS = {
     "join:sub": lambda r: r.join(sub_()).on_field("id"),
     "join:cross": lambda r: r.join(Table("w2")).cross(),
     "join:self": lambda r: r.join(A(Table("t"))).on(t_().id == Table("t", alias="t2").id),
+    # a different table that is spelled like a source of the receiver (same name in another schema; an alias equal to
+    # the source's name): no self-join, so the argument must stay as it is
+    "join:twin": lambda r: r.join(A(Table("t", schema="arch"))).on_field("id"),
+    "join:alias_like_source": lambda r: r.join(A(Table("zz", alias="t"))).cross(),
+    "from_:twin": lambda r: r.from_(A(Table("t", schema="arch"))),
     "limit": lambda r: r.limit(7),
     "offset": lambda r: r.offset(2),
     "slice": lambda r: r[3:9],
@@ -474,10 +480,24 @@ def _run_history(case, upto=None, only_chain_of=None):
     return nodes, args_per_step, errs
 
 
-def _permitted_alias(live, pristine):
+def _is_self_join(arg, parent):
+    """a table argument may gain an automatic alias only when it is a self-join: the receiver already has an equal
+    (same name, same schema, un-aliased) table among its row sources"""
+    if not isinstance(arg, Table):
+        return True
+    twin = copy.copy(arg)
+    twin.alias = None
+    d = odict(parent) or {}
+    sources = list(d.get("_from") or []) + [getattr(j, "item", None) for j in (d.get("_joins") or [])] + [d.get("_update_table")]
+    return any(isinstance(c, Table) and c.alias is None and c == twin for c in sources)
+
+
+def _permitted_alias(live, pristine, parent=None):
     """the automatic alias given to an un-aliased subquery / self-joined table passed in as an argument."""
     o = live.obj
     if live.kind != "arg" or not isinstance(o, (Q.QueryBuilder, Q._SetOperation, Table)):
+        return False
+    if parent is not None and not _is_self_join(o, parent):
         return False
     d, p = odict(o), odict(pristine)
     if p.get("alias") is None and d.get("alias") is not None:
@@ -581,7 +601,8 @@ def run_case(case):
             if now == pre[1]:
                 continue
             ch = [k for k in sorted(set(now) | set(pre[1])) if now.get(k) != pre[1].get(k)]
-            if ch == ["alias"] and pre[2].get("alias") is None and isinstance(a, (Q.QueryBuilder, Q._SetOperation, Table)):
+            if (ch == ["alias"] and pre[2].get("alias") is None and isinstance(a, (Q.QueryBuilder, Q._SetOperation, Table))
+                    and _is_self_join(a, parent)):
                 continue  # the permitted side effect
             d = odict(a)
             cur = dict(d)
@@ -623,7 +644,7 @@ def run_case(case):
             if lv.kind == "arg" and lv.born == i:
                 # argument of this very call: it was registered before the call, twin is pre-call too
                 pass
-            permitted = _permitted_alias(lv, twin)
+            permitted = _permitted_alias(lv, twin, parent)
             o_now, o_then = obs(lv.obj), obs(twin)
             rendered = True
             role = "receiver" if lv.obj is parent else ("argument" if lv.kind == "arg" else "earlier-derived")
